@@ -36,7 +36,7 @@ HOSTS = [
     # (code points whose UTF-8 form contains the byte 0x80; raw upper-case non-ASCII is left out: URIs are ASCII, and what an
     # IRI-tolerant parser does to its case is not the RFC's subject)
     ("\u0140.example", "name", "\u0140.example"), ("%C3%80.example", "name", "\u00c0.example"), ("%C5%80%E2%80%80", "name", "\u0140\u2000"),
-    ("[ff02::fd%25eth0]", "zone", None), ("[::1%25lo]", "zone", None), ("[fe80::1%25eth1]", "zone", None),
+    ("[ff02::fd%25eth0]", "zone", None), ("[::1%25lo]", "zone", None), ("[fe80::1%25eth1]", "zone", None), ("[fe80::1%25enP2p1s0]", "zone", None),
     ("127.0.0.1", "ip", None), ("192.168.1.255", "ip", None), ("255.255.255.255", "ip", None), ("10.255.0.1", "ip", None), ("0.0.0.0", "ip", None),
     ("1.2.3.", "name", "1.2.3."), ("1..2.3", "name", "1..2.3"), ("256.1.1.1", "name", "256.1.1.1"),
     ("[::1]", "ip", None), ("[2001:db8::1]", "ip", None), ("[::ffff:1.2.3.4]", "ip", None), ("[fe80::1%25lo]", "dontcare", None),
